@@ -9,6 +9,7 @@
 #include <dlfcn.h>
 #include <fcntl.h>
 #include <map>
+#include <sys/stat.h>
 #include <sys/syscall.h>
 #include <sys/uio.h>
 #include <unistd.h>
@@ -21,6 +22,8 @@ struct FdInfo { int proc; int fileid; bool writing; };
 static std::map<int, FdInfo> g_fds;          // tracked descriptors
 static std::map<int, int> g_lock;            // proc -> mode (1 shared, 2 exclusive) on the lock file
 static Env *g_env = nullptr;
+static long g_mtime[4] = {0, 0, 0, 0};      // simulated modification time (seconds) per tracked file, 0 = never modified in this run
+static void touch(int fileid, int proc) { if (fileid >= 0 && fileid < 4 && g_env) g_mtime[fileid] = g_env->clock(proc); }
 
 static long raw_write(int fd, const void *b, size_t n) { return syscall(SYS_write, fd, b, n); }
 static long raw_read(int fd, void *b, size_t n) { return syscall(SYS_read, fd, b, n); }
@@ -32,6 +35,7 @@ void reset(Env *env) {
   for (auto &kv : g_fds) raw_close(kv.first);
   g_fds.clear();
   g_lock.clear();
+  for (long &m : g_mtime) m = 0;
 }
 
 // pids are chosen so that some host strings are proper prefixes of others (simhost:12 / simhost:123 / simhost:1234):
@@ -116,6 +120,7 @@ static long do_write(int fd, FdInfo *fi, const char *data, size_t n) {
     off += (size_t)r;
   }
   sim::event(sim::K_WRITE, fileid, (long)off);
+  touch(fileid, proc);
   g_env->file_event(proc, fileid, wf.kind == WriteFault::KILL ? "write-then-kill" : (wf.kind == WriteFault::SHORT ? "short-write" : "write"), (long)off);
   if (wf.kind == WriteFault::KILL) sim::kill_process(proc);  // never returns
   return (long)off;
@@ -178,6 +183,7 @@ static FILE *sim_fopen(const char *name, const char *path, const char *mode) {
   if (!fp) return fp;
   g_fds[fileno(fp)] = FdInfo{proc, fileid, writing};
   sim::event(sim::K_FOPEN, fileid, writing);
+  if (writing) touch(fileid, proc);
   g_env->file_event(proc, fileid, writing ? "open-truncate" : "open-read", 0);
   return fp;
 }
@@ -206,6 +212,92 @@ int fclose(FILE *fp) {
   return r;
 }
 
+ssize_t pwrite(int fd, const void *buf, size_t n, off_t off) {
+  FdInfo *fi = tracked(fd);
+  if (!fi) return syscall(SYS_pwrite64, fd, buf, n, off);
+  sim::Harness harness_scope;
+  int proc = sim::self_proc();
+  int fileid = fi->fileid;
+  sim::point(sim::K_WRITE, fileid);
+  WriteFault wf = g_env->write_fault(proc, fileid, n);
+  size_t k = wf.kind != WriteFault::NONE ? (wf.bytes > n ? n : wf.bytes) : n;
+  long r = k ? syscall(SYS_pwrite64, fd, buf, k, off) : 0;
+  sim::event(sim::K_WRITE, fileid, r);
+  touch(fileid, proc);
+  g_env->file_event(proc, fileid, wf.kind == WriteFault::KILL ? "write-then-kill" : "write", r > 0 ? r : 0);
+  if (wf.kind == WriteFault::KILL) sim::kill_process(proc);
+  return r;
+}
+ssize_t pwrite64(int fd, const void *buf, size_t n, off_t off) { return pwrite(fd, buf, n, off); }
+
+int ftruncate(int fd, off_t len) {
+  FdInfo *fi = tracked(fd);
+  if (!fi) return (int)syscall(SYS_ftruncate, fd, len);
+  sim::Harness harness_scope;
+  int proc = sim::self_proc();
+  int fileid = fi->fileid;
+  sim::point(sim::K_FOPEN, 300 + fileid);
+  int r = (int)syscall(SYS_ftruncate, fd, len);
+  sim::event(sim::K_FOPEN, 300 + fileid, len);
+  touch(fileid, proc);
+  g_env->file_event(proc, fileid, len == 0 ? "open-truncate" : "truncate", 0);
+  return r;
+}
+int ftruncate64(int fd, off_t len) { return ftruncate(fd, len); }
+
+int truncate(const char *path, off_t len) {
+  int fileid = (active() && g_env) ? g_env->file_id(path) : FILE_NONE;
+  if (fileid == FILE_NONE) return (int)syscall(SYS_truncate, path, len);
+  sim::Harness harness_scope;
+  int proc = sim::self_proc();
+  sim::point(sim::K_FOPEN, 300 + fileid);
+  int r = (int)syscall(SYS_truncate, path, len);
+  sim::event(sim::K_FOPEN, 300 + fileid, len);
+  touch(fileid, proc);
+  g_env->file_event(proc, fileid, len == 0 ? "open-truncate" : "truncate", 0);
+  return r;
+}
+int truncate64(const char *path, off_t len) { return truncate(path, len); }
+
+int fsync(int fd) {
+  FdInfo *fi = tracked(fd);
+  if (fi) { sim::Harness harness_scope; sim::point(sim::K_FCLOSE, 400 + fi->fileid); }
+  return (int)syscall(SYS_fsync, fd);
+}
+int fdatasync(int fd) {
+  FdInfo *fi = tracked(fd);
+  if (fi) { sim::Harness harness_scope; sim::point(sim::K_FCLOSE, 400 + fi->fileid); }
+  return (int)syscall(SYS_fdatasync, fd);
+}
+
+// modification times of tracked files come from the simulated clock (a change that looks at the age of the lock
+// file or of the job file must not see the real clock of the tmpfs)
+static void patch_times(int fileid, struct stat *st) {
+  if (!st || fileid < 0 || fileid >= 4 || !g_env) return;
+  long t = g_mtime[fileid] ? g_mtime[fileid] : g_env->clock(0) - 3600;  // untouched in this run: one hour old
+  st->st_mtim.tv_sec = t; st->st_mtim.tv_nsec = 0;
+  st->st_ctim = st->st_mtim;
+}
+int stat(const char *path, struct stat *st) {
+  int r = (int)syscall(SYS_newfstatat, AT_FDCWD, path, st, 0);
+  if (r == 0 && active() && g_env) patch_times(g_env->file_id(path), st);
+  return r;
+}
+int lstat(const char *path, struct stat *st) {
+  int r = (int)syscall(SYS_newfstatat, AT_FDCWD, path, st, AT_SYMLINK_NOFOLLOW);
+  if (r == 0 && active() && g_env) patch_times(g_env->file_id(path), st);
+  return r;
+}
+int fstat(int fd, struct stat *st) {
+  int r = (int)syscall(SYS_fstat, fd, st);
+  FdInfo *fi = r == 0 ? tracked(fd) : nullptr;
+  if (fi) patch_times(fi->fileid, st);
+  return r;
+}
+int stat64(const char *path, struct stat64 *st) { return stat(path, (struct stat *)st); }
+int lstat64(const char *path, struct stat64 *st) { return lstat(path, (struct stat *)st); }
+int fstat64(int fd, struct stat64 *st) { return fstat(fd, (struct stat *)st); }
+
 // rename / unlink / remove of files in the job directory: decision point before, file event after (the job file
 // may have been replaced atomically)
 typedef int (*rename_t)(const char *, const char *);
@@ -222,6 +314,7 @@ int rename(const char *from, const char *to) {
   sim::point(sim::K_FOPEN, 100 + (fid >= 0 ? fid : fid2));
   int r = real(from, to);
   sim::event(sim::K_FOPEN, 100 + (fid >= 0 ? fid : fid2), r);
+  if (fid >= 0) touch(fid, proc);
   g_env->file_event(proc, fid >= 0 ? fid : fid2, "rename", 0);
   return r;
 }
@@ -246,36 +339,41 @@ int remove(const char *path) { return sim_unlink("remove", path); }
 // ---------------------------------------------------------------------------
 // --wrap seam: calls made by statically linked votca objects
 // ---------------------------------------------------------------------------
-int __real_open(const char *, int, ...);
-int __real_close(int);
-int __real_fcntl(int, int, ...);
 pid_t __real_getpid(void);
 int __real_gethostname(char *, size_t);
 time_t __real_time(time_t *);
 struct tm *__real_localtime_r(const time_t *, struct tm *);
 
-int __wrap_open(const char *path, int flags, ...) {
-  int mode = 0;
-  if (flags & O_CREAT) {
-    va_list ap;
-    va_start(ap, flags);
-    mode = va_arg(ap, int);
-    va_end(ap);
-  }
+static int sim_open(const char *path, int flags, int mode) {
   int fileid = (active() && g_env) ? g_env->file_id(path) : FILE_NONE;
-  if (fileid == FILE_NONE) return __real_open(path, flags, mode);
+  if (fileid == FILE_NONE) return raw_open(path, flags, mode);
   sim::Harness harness_scope;
   int proc = sim::self_proc();
   sim::point(sim::K_OPEN, fileid);
   int fd = raw_open(path, flags, mode);
   if (fd >= 0) g_fds[fd] = FdInfo{proc, fileid, (flags & O_ACCMODE) != O_RDONLY};
   sim::event(sim::K_OPEN, fileid, fd >= 0);
+  if (fd >= 0 && (flags & O_TRUNC) && fileid != FILE_LOCK) {
+    touch(fileid, proc);
+    g_env->file_event(proc, fileid, "open-truncate", 0);
+  }
   return fd;
 }
 
-int __wrap_close(int fd) {
+int open(const char *path, int flags, ...) {
+  int mode = 0;
+  if (flags & (O_CREAT | O_TMPFILE)) { va_list ap; va_start(ap, flags); mode = va_arg(ap, int); va_end(ap); }
+  return sim_open(path, flags, mode);
+}
+int open64(const char *path, int flags, ...) {
+  int mode = 0;
+  if (flags & (O_CREAT | O_TMPFILE)) { va_list ap; va_start(ap, flags); mode = va_arg(ap, int); va_end(ap); }
+  return sim_open(path, flags, mode);
+}
+
+int close(int fd) {
   FdInfo *fi = tracked(fd);
-  if (!fi) return __real_close(fd);
+  if (!fi) return raw_close(fd);
   sim::Harness harness_scope;
   int proc = fi->proc;
   int fileid = fi->fileid;
@@ -288,13 +386,24 @@ int __wrap_close(int fd) {
   return r;
 }
 
-int __wrap_fcntl(int fd, int cmd, ...) {
+static int sim_fcntl(int fd, int cmd, void *arg);
+int fcntl(int fd, int cmd, ...) {
   va_list ap;
   va_start(ap, cmd);
   void *arg = va_arg(ap, void *);
   va_end(ap);
+  return sim_fcntl(fd, cmd, arg);
+}
+int fcntl64(int fd, int cmd, ...) {
+  va_list ap;
+  va_start(ap, cmd);
+  void *arg = va_arg(ap, void *);
+  va_end(ap);
+  return sim_fcntl(fd, cmd, arg);
+}
+static int sim_fcntl(int fd, int cmd, void *arg) {
   FdInfo *fi = tracked(fd);
-  if (!fi || fi->fileid != FILE_LOCK || (cmd != F_SETLK && cmd != F_SETLKW)) return __real_fcntl(fd, cmd, arg);
+  if (!fi || fi->fileid != FILE_LOCK || (cmd != F_SETLK && cmd != F_SETLKW)) return (int)syscall(SYS_fcntl, fd, cmd, arg);
   sim::Harness harness_scope;
   struct flock *fl = (struct flock *)arg;
   int proc = sim::self_proc();
